@@ -244,7 +244,7 @@ func bytespool(args []string) {
 				fails++
 				if fails <= 8 {
 					rep.Detail = detail
-					vhlib.Fail(sig, what, rep)
+					reportFail(sig, what, rep)
 				}
 			}
 			violated := false
